@@ -428,6 +428,7 @@ func (s *sim) run(p *simProc, kind string) {
 }
 
 func (s *sim) advance(d time.Duration) {
+	s.c.S.Progress()
 	time.Sleep(d)
 	synctest.Wait()
 }
